@@ -266,7 +266,8 @@ public:
         requires(detail::is_transparent_v<key_compare>)
     [[nodiscard]] constexpr auto count(K const& x) const -> size_type
     {
-        return contains(x) ? 1 : 0;
+        auto const range = equal_range(x);
+        return static_cast<size_type>(range.second - range.first);
     }
 
     /// \brief Finds an element with key equivalent to key.
